@@ -3,7 +3,9 @@
    Statements are about the executable models of SC.C07.Model instantiated at the real numbers
    (`ROps`): they say what the code computes in exact arithmetic, for data of EVERY size.  The same
    generic definitions instantiated at binary64 are what the correspondence check runs against
-   src/linear/{linear_regression,ridge_regression}.rs.  Rounding-error bounds are not theorems.
+   src/linear/{linear_regression,ridge_regression}.rs.  Rounding-error bounds are theorems for
+   predict and for the entries of the system the ridge fit builds (last sections, binary64 instance);
+   for the solvers, hence for the fitted coefficients, they are not theorems.
 
    Vocabulary (C07/ProofsFit.v, ProofsSolve.v, ProofsMain.v):
      wfR X                 the DenseMatrix value is well formed (|values| = nrows * ncols)
@@ -504,4 +506,282 @@ Example C07_ols_svd_model_instance :
 Proof.
   cbv zeta. split; [reflexivity|]. split; [cbn; lia|].
   apply ols_svd_model_instance; [reflexivity | reflexivity | cbn; lia | reflexivity].
+Qed.
+
+(* ========================= rounding: predict at binary64 =========================
+   The theorems above are exact-arithmetic statements.  These are about the SAME generic definition
+   `predict` instantiated at FOps (Coq primitive floats = IEEE binary64, round to nearest even), the
+   instance the correspondence check runs against the implementation bit for bit, proved through
+   Flocq's PrimFloat bridge (Base/FloatError.v: FR x = real value of a float, ffin x = finite,
+   u64 = 2^-53, eta64 = 2^-1075; C03.ProofsFloat.RM m = the matrix of real values).  C07/ProofsFloat.v.
+   predict is y_i = fl( fl(sum_k x_ik w_k) + b ): p products, a left fold from 0 (the first addition is
+   exact), one more rounding for the intercept.  The only no-overflow hypothesis is that the prediction
+   in question is finite (non-finite values are absorbing; the theorem then DERIVES that the row of X,
+   the coefficients and the intercept are finite).  Nothing here is about the solvers (QR / SVD / Cholesky). *)
+From Coq Require Import ZArith Floats.
+From SC Require Base.FloatError C03.ProofsFloat C03.ProofsFloat2 C07.ProofsFloat C07.ProofsFloatEx.
+
+(* every finite prediction: with S_i = sum_k x_ik w_k and A_i = sum_k |x_ik w_k| over the real values,
+   |FR y_i - (S_i + b)| <= ((1+u)^(p+1) - 1) (A_i + |b| + p eta) + p eta,
+   and S_i + b is what the exact-arithmetic instance returns on the real values (C07_predict_affine) *)
+Theorem C07_predict_float_error : forall (X w : dm PrimFloat.float) (b : PrimFloat.float)
+    (yh : list PrimFloat.float) (i : nat),
+  predict FOps X w b = Some yh -> (i < nrows X)%nat -> FloatError.ffin (nth i yh 0%float) ->
+  let p := ncols X in
+  let t := fun k => FloatError.FR (D.get FOps X i k) * FloatError.FR (D.get FOps w k 0%nat) in
+  (forall k, (k < p)%nat -> FloatError.ffin (D.get FOps X i k) /\ FloatError.ffin (D.get FOps w k 0%nat)) /\
+  FloatError.ffin b /\
+  (exists yR, predict ROps (C03.ProofsFloat.RM X) (C03.ProofsFloat.RM w) (FloatError.FR b) = Some yR /\
+              nth i yR 0 = FloatError.Rsuml (map t (seq 0 p)) + FloatError.FR b) /\
+  Rabs (FloatError.FR (nth i yh 0%float) - (FloatError.Rsuml (map t (seq 0 p)) + FloatError.FR b)) <=
+    ((1 + FloatError.u64) ^ (p + 1) - 1) *
+      (FloatError.Rsumabs (map t (seq 0 p)) + Rabs (FloatError.FR b) + INR p * FloatError.eta64)
+    + INR p * FloatError.eta64.
+Proof. exact C07.ProofsFloat.predict_float_error. Qed.
+
+(* what predict computes, for EVERY instance of the scalar operations (binary64 included): a returned
+   prediction vector has one entry per row, the shapes were ncols X = nrows w and ncols w = 1, and
+   entry i is (sum_k x_ik w_k) + b with the instance's own operations in the model's fold order *)
+Theorem C07_predict_entries : forall (T : Type) (O : Ops T) (X w : dm T) (b : T) (yh : list T),
+  predict O X w b = Some yh ->
+  ncols X = nrows w /\ ncols w = 1%nat /\ length yh = nrows X /\
+  forall i, (i < nrows X)%nat ->
+    nth i yh (o0 O) = oadd O (osumn O (ncols X) (fun k => omul O (D.get O X i k) (D.get O w k 0%nat))) b.
+Proof. exact (@C07.ProofsFloat.predict_entries). Qed.
+
+(* decisions taken on a prediction (a classifier thresholding the regression output; th = 0: the sign):
+   if the exact value S_i + b is farther from a finite threshold th than the bound above, the binary64
+   comparisons th < y_i and y_i < th give the exact answers *)
+Theorem C07_predict_float_robust_threshold : forall (X w : dm PrimFloat.float) (b : PrimFloat.float)
+    (yh : list PrimFloat.float) (i : nat) (th : PrimFloat.float),
+  predict FOps X w b = Some yh -> (i < nrows X)%nat -> FloatError.ffin (nth i yh 0%float) ->
+  FloatError.ffin th ->
+  let p := ncols X in
+  let t := fun k => FloatError.FR (D.get FOps X i k) * FloatError.FR (D.get FOps w k 0%nat) in
+  let v := FloatError.Rsuml (map t (seq 0 p)) + FloatError.FR b in
+  ((1 + FloatError.u64) ^ (p + 1) - 1) *
+      (FloatError.Rsumabs (map t (seq 0 p)) + Rabs (FloatError.FR b) + INR p * FloatError.eta64)
+    + INR p * FloatError.eta64 < Rabs (v - FloatError.FR th) ->
+  (PrimFloat.ltb th (nth i yh 0%float) = true <-> FloatError.FR th < v) /\
+  (PrimFloat.ltb (nth i yh 0%float) th = true <-> v < FloatError.FR th).
+Proof. exact C07.ProofsFloat.predict_float_robust_threshold. Qed.
+
+(* ... and not inside the margin: x = w = 1 + 2^-52, b = -(1 + 2^-51), threshold 0.  The exact value is
+   2^-104 > 0, the binary64 prediction is 0: the comparison 0 < y says false *)
+Theorem C07_predict_threshold_margin_needed :
+  let X := D.mkdm 1 1 [0x1.0000000000001p+0]%float in
+  let w := D.mkdm 1 1 [0x1.0000000000001p+0]%float in
+  let b := (-0x1.0000000000002p+0)%float in
+  exists yh, predict FOps X w b = Some yh /\ (0 < nrows X)%nat /\
+    FloatError.ffin (nth 0 yh 0%float) /\ FloatError.ffin 0%float /\
+    FloatError.FR (D.get FOps X 0 0) * FloatError.FR (D.get FOps w 0 0) + FloatError.FR b = / 2 ^ 104 /\
+    FloatError.FR 0%float < FloatError.FR (D.get FOps X 0 0) * FloatError.FR (D.get FOps w 0 0) + FloatError.FR b /\
+    PrimFloat.ltb 0%float (nth 0 yh 0%float) = false.
+Proof. exact C07.ProofsFloatEx.ex_threshold_margin_needed. Qed.
+
+(* Exact invariance under a change of units by a power of two.  C07.ProofsFloat.sgn x is the sign bit
+   of x (of a zero too).  If every entry of row i of X' is the entry of X times 2^e and every
+   coefficient of w' the coefficient of w times 2^-e — as real numbers: the scaling rounded nothing —
+   with unchanged sign bits, then prediction i is THE SAME FLOAT (Leibniz equality of primitive floats:
+   bit identity, there is a single NaN), whatever the cancellation, subnormal products included *)
+Theorem C07_predict_scale_pow2_exact : forall (e : Z) (X X' w w' : dm PrimFloat.float) (b : PrimFloat.float)
+    (yh yh' : list PrimFloat.float) (i : nat),
+  predict FOps X w b = Some yh -> predict FOps X' w' b = Some yh' ->
+  nrows X' = nrows X -> ncols X' = ncols X -> (i < nrows X)%nat ->
+  FloatError.ffin (nth i yh 0%float) -> FloatError.ffin (nth i yh' 0%float) ->
+  (forall k, (k < ncols X)%nat ->
+     (FloatError.FR (D.get FOps X' i k) = FloatError.FR (D.get FOps X i k) * powerRZ 2 e /\
+      C07.ProofsFloat.sgn (D.get FOps X' i k) = C07.ProofsFloat.sgn (D.get FOps X i k)) /\
+     (FloatError.FR (D.get FOps w' k 0%nat) = FloatError.FR (D.get FOps w k 0%nat) * powerRZ 2 (- e) /\
+      C07.ProofsFloat.sgn (D.get FOps w' k 0%nat) = C07.ProofsFloat.sgn (D.get FOps w k 0%nat))) ->
+  nth i yh' 0%float = nth i yh 0%float.
+Proof. exact C07.ProofsFloat.predict_scale_pow2_exact. Qed.
+
+(* ... in terms of the model's own X.mul_scalar(c), w.mul_scalar(d) with c = 2^e, d = 2^-e, when no
+   entry is rounded by its scaling (no overflow, no underflow into the subnormal range that loses bits) *)
+Theorem C07_predict_mul_scalar_pow2_exact : forall (e : Z) (X w : dm PrimFloat.float) (b c d : PrimFloat.float)
+    (yh yh' : list PrimFloat.float) (i : nat),
+  FloatError.FR c = powerRZ 2 e -> FloatError.FR d = powerRZ 2 (- e) ->
+  (forall x, In x (values X) -> FloatError.FR (PrimFloat.mul x c) = FloatError.FR x * FloatError.FR c) ->
+  (forall x, In x (values w) -> FloatError.FR (PrimFloat.mul x d) = FloatError.FR x * FloatError.FR d) ->
+  predict FOps X w b = Some yh ->
+  predict FOps (D.mul_scalar FOps X c) (D.mul_scalar FOps w d) b = Some yh' ->
+  (i < nrows X)%nat -> FloatError.ffin (nth i yh 0%float) -> FloatError.ffin (nth i yh' 0%float) ->
+  nth i yh' 0%float = nth i yh 0%float.
+Proof. exact C07.ProofsFloat.predict_mul_scalar_pow2_exact. Qed.
+
+(* the target side: coefficients and intercept scaled by 2^e exactly, and no product x_ik w_k underflows
+   before or after (each is zero, or it and its scaled value are at least 2^-1022 in magnitude):
+   prediction i is scaled by exactly 2^e *)
+Theorem C07_predict_coef_scale_pow2_exact : forall (e : Z) (X w w' : dm PrimFloat.float) (b b' : PrimFloat.float)
+    (yh yh' : list PrimFloat.float) (i : nat),
+  predict FOps X w b = Some yh -> predict FOps X w' b' = Some yh' -> (i < nrows X)%nat ->
+  FloatError.ffin (nth i yh 0%float) -> FloatError.ffin (nth i yh' 0%float) ->
+  FloatError.FR b' = FloatError.FR b * powerRZ 2 e ->
+  (forall k, (k < ncols X)%nat ->
+     FloatError.FR (D.get FOps w' k 0%nat) = FloatError.FR (D.get FOps w k 0%nat) * powerRZ 2 e /\
+     let t := FloatError.FR (D.get FOps X i k) * FloatError.FR (D.get FOps w k 0%nat) in
+     (t = 0 \/ (/ 2 ^ 1022 <= Rabs t /\ / 2 ^ 1022 <= Rabs (t * powerRZ 2 e)))) ->
+  FloatError.FR (nth i yh' 0%float) = FloatError.FR (nth i yh 0%float) * powerRZ 2 e.
+Proof. exact C07.ProofsFloat.predict_coef_scale_pow2_exact. Qed.
+
+(* ---------------- the hypotheses are satisfiable (inputs 0.1, 0.2, 0.3, 0.7 ...: every operation rounds) ---- *)
+(* rows (0.1, 0.3, 1) and (0.2, 0.7, -2) (column-major storage), w = (0.3, -0.1, 0.7), b = 0.2 *)
+Definition exf_X : dm PrimFloat.float :=
+  D.mkdm 2 3 [0x1.999999999999ap-4; 0x1.999999999999ap-3; 0x1.3333333333333p-2; 0x1.6666666666666p-1; 1; (-2)]%float.
+Definition exf_w : dm PrimFloat.float :=
+  D.mkdm 3 1 [0x1.3333333333333p-2; (-0x1.999999999999ap-4); 0x1.6666666666666p-1]%float.
+Definition exf_b : PrimFloat.float := 0x1.999999999999ap-3%float.
+
+Example C07_predict_float_instance :
+  exists yh, predict FOps exf_X exf_w exf_b = Some yh /\ (1 < nrows exf_X)%nat /\
+             FloatError.ffin (nth 0 yh 0%float) /\ FloatError.ffin (nth 1 yh 0%float).
+Proof. eexists. split; [vm_compute; reflexivity|]. split; [vm_compute; lia|]. split; vm_compute; reflexivity. Qed.
+
+
+(* X times 4, w times 1/4 through mul_scalar *)
+Example C07_predict_mul_scalar_instance :
+  let c := 4%float in let d := 0.25%float in
+  FloatError.FR c = powerRZ 2 2 /\ FloatError.FR d = powerRZ 2 (- (2)) /\
+  (forall x, In x (values exf_X) -> FloatError.FR (PrimFloat.mul x c) = FloatError.FR x * FloatError.FR c) /\
+  (forall x, In x (values exf_w) -> FloatError.FR (PrimFloat.mul x d) = FloatError.FR x * FloatError.FR d) /\
+  exists yh yh', predict FOps exf_X exf_w exf_b = Some yh /\
+    predict FOps (D.mul_scalar FOps exf_X c) (D.mul_scalar FOps exf_w d) exf_b = Some yh' /\
+    (1 < nrows exf_X)%nat /\ FloatError.ffin (nth 1 yh 0%float) /\ FloatError.ffin (nth 1 yh' 0%float).
+Proof. exact C07.ProofsFloatEx.ex_scale. Qed.
+
+(* the entrywise hypothesis of C07_predict_scale_pow2_exact follows from the mul_scalar form *)
+Example C07_predict_rescaled_instance : forall k, (k < ncols exf_X)%nat ->
+  FloatError.FR (D.get FOps (D.mul_scalar FOps exf_X 4%float) 1 k) = FloatError.FR (D.get FOps exf_X 1 k) * powerRZ 2 2 /\
+  C07.ProofsFloat.sgn (D.get FOps (D.mul_scalar FOps exf_X 4%float) 1 k) = C07.ProofsFloat.sgn (D.get FOps exf_X 1 k).
+Proof. exact C07.ProofsFloatEx.ex_rescaled. Qed.
+
+
+(* ---------------- predict at binary64, continued (C07/ProofsFloatBwd.v) ---------------- *)
+From SC Require C07.ProofsFloatBwd.
+
+(* when no product x_ik w_k underflows (each is zero or at least 2^-1022 in magnitude) the bound is
+   purely relative to the magnitudes: no eta term *)
+Theorem C07_predict_float_error_normal : forall (X w : dm PrimFloat.float) (b : PrimFloat.float)
+    (yh : list PrimFloat.float) (i : nat),
+  predict FOps X w b = Some yh -> (i < nrows X)%nat -> FloatError.ffin (nth i yh 0%float) ->
+  let p := ncols X in
+  let t := fun k => FloatError.FR (D.get FOps X i k) * FloatError.FR (D.get FOps w k 0%nat) in
+  (forall k, (k < p)%nat -> t k = 0 \/ / 2 ^ 1022 <= Rabs (t k)) ->
+  Rabs (FloatError.FR (nth i yh 0%float) - (FloatError.Rsuml (map t (seq 0 p)) + FloatError.FR b)) <=
+    ((1 + FloatError.u64) ^ (p + 1) - 1) * (FloatError.Rsumabs (map t (seq 0 p)) + Rabs (FloatError.FR b)).
+Proof. exact C07.ProofsFloatBwd.predict_float_error_normal. Qed.
+
+(* backward stability: the computed prediction of row i is the EXACT value sum_k x_ik wh_k + bh (+ r) for
+   coefficients wh within the relative distance (1+u)^(p+1) - 1 of w (they depend on the row), an
+   intercept bh within u of b, and a residual r caused only by underflowing products:
+   |r| <= (1+u)^p p eta, and r = 0 when no product underflows *)
+Theorem C07_predict_float_backward : forall (X w : dm PrimFloat.float) (b : PrimFloat.float)
+    (yh : list PrimFloat.float) (i : nat),
+  predict FOps X w b = Some yh -> (i < nrows X)%nat -> FloatError.ffin (nth i yh 0%float) ->
+  let p := ncols X in
+  exists (wh : nat -> R) (bh r : R),
+    FloatError.FR (nth i yh 0%float) =
+      FloatError.Rsuml (map (fun k => FloatError.FR (D.get FOps X i k) * wh k) (seq 0 p)) + bh + r /\
+    (forall k, (k < p)%nat ->
+       Rabs (wh k - FloatError.FR (D.get FOps w k 0%nat)) <=
+       ((1 + FloatError.u64) ^ (p + 1) - 1) * Rabs (FloatError.FR (D.get FOps w k 0%nat))) /\
+    Rabs (bh - FloatError.FR b) <= FloatError.u64 * Rabs (FloatError.FR b) /\
+    Rabs r <= (1 + FloatError.u64) ^ p * (INR p * FloatError.eta64) /\
+    ((forall k, (k < p)%nat ->
+        let t := FloatError.FR (D.get FOps X i k) * FloatError.FR (D.get FOps w k 0%nat) in
+        t = 0 \/ / 2 ^ 1022 <= Rabs t) -> r = 0).
+Proof. exact C07.ProofsFloatBwd.predict_float_backward. Qed.
+
+
+(* ---------------- around the solver (C07/ProofsFloatSys.v) ---------------- *)
+From SC Require C07.ProofsFloatSys.
+
+(* the computed prediction against ANY real affine model (ws, bs) — e.g. the exact minimiser of the
+   theorems above: the rounding bound of C07_predict_float_error plus the propagated coefficient error *)
+Theorem C07_predict_float_vs_model : forall (X w : dm PrimFloat.float) (b : PrimFloat.float)
+    (yh : list PrimFloat.float) (i : nat) (ws : nat -> R) (bs : R),
+  predict FOps X w b = Some yh -> (i < nrows X)%nat -> FloatError.ffin (nth i yh 0%float) ->
+  let p := ncols X in
+  let x := fun k => FloatError.FR (D.get FOps X i k) in
+  let wf := fun k => FloatError.FR (D.get FOps w k 0%nat) in
+  Rabs (FloatError.FR (nth i yh 0%float) - (FloatError.Rsuml (map (fun k => x k * ws k) (seq 0 p)) + bs)) <=
+    ((1 + FloatError.u64) ^ (p + 1) - 1) *
+      (FloatError.Rsumabs (map (fun k => x k * wf k) (seq 0 p)) + Rabs (FloatError.FR b) + INR p * FloatError.eta64)
+    + INR p * FloatError.eta64
+    + FloatError.Rsuml (map (fun k => Rabs (x k) * Rabs (wf k - ws k)) (seq 0 p)) + Rabs (FloatError.FR b - bs).
+Proof. exact C07.ProofsFloatSys.predict_float_vs_model. Qed.
+
+(* the linear system RidgeRegression::fit builds, at binary64, entry by entry (n = number of rows):
+   right-hand side (Z^T y)_jc and off-diagonal (Z^T Z)_jl are dot products of two columns,
+   (1+u)^n - 1 relative to the sum of magnitudes plus n underflow terms; a diagonal entry gets one more
+   rounding from `+ alpha`.  Only finiteness of the entry in question is assumed.  What the SOLVER then
+   does with this system has no rounding theorem. *)
+Theorem C07_ridge_system_float_error : forall (Z ycol a rhs : dm PrimFloat.float) (alpha : PrimFloat.float),
+  ridge_system FOps (ncols Z) Z ycol alpha = Some (a, rhs) ->
+  let n := nrows Z in
+  (forall j c, (j < ncols Z)%nat -> (c < ncols ycol)%nat -> FloatError.ffin (D.get FOps rhs j c) ->
+     let t := fun i => FloatError.FR (D.get FOps Z i j) * FloatError.FR (D.get FOps ycol i c) in
+     Rabs (FloatError.FR (D.get FOps rhs j c) - FloatError.Rsuml (map t (seq 0 n))) <=
+       ((1 + FloatError.u64) ^ n - 1) * (FloatError.Rsumabs (map t (seq 0 n)) + INR n * FloatError.eta64)
+       + INR n * FloatError.eta64) /\
+  (forall j l, (j < ncols Z)%nat -> (l < ncols Z)%nat -> FloatError.ffin (D.get FOps a j l) ->
+     let t := fun i => FloatError.FR (D.get FOps Z i j) * FloatError.FR (D.get FOps Z i l) in
+     (j <> l ->
+      Rabs (FloatError.FR (D.get FOps a j l) - FloatError.Rsuml (map t (seq 0 n))) <=
+        ((1 + FloatError.u64) ^ n - 1) * (FloatError.Rsumabs (map t (seq 0 n)) + INR n * FloatError.eta64)
+        + INR n * FloatError.eta64) /\
+     (j = l ->
+      FloatError.ffin alpha /\
+      Rabs (FloatError.FR (D.get FOps a j l) - (FloatError.Rsuml (map t (seq 0 n)) + FloatError.FR alpha)) <=
+        ((1 + FloatError.u64) ^ (n + 1) - 1) *
+          (FloatError.Rsumabs (map t (seq 0 n)) + Rabs (FloatError.FR alpha) + INR n * FloatError.eta64)
+        + INR n * FloatError.eta64)).
+Proof. exact C07.ProofsFloatSys.ridge_system_float_error. Qed.
+
+(* ... as a statement about fit itself (normalize = false, ANY solver): the returned coefficients are
+   the solver's answer to a system (a, rhs) whose entries are within these bounds of X^T y and
+   X^T X + alpha I, and the intercept is exactly 0 *)
+Theorem C07_ridge_fit_raw_system_float_error : forall solver eps (X : dm PrimFloat.float)
+    (y : list PrimFloat.float) (alpha : PrimFloat.float) w b,
+  ridge_fit FOps solver eps X y alpha false = Some (w, b) ->
+  let n := nrows X in
+  b = 0%float /\ length y = n /\
+  exists a rhs, solver a rhs = Some w /\
+  (forall j, (j < ncols X)%nat -> FloatError.ffin (D.get FOps rhs j 0) ->
+     let t := fun i => FloatError.FR (D.get FOps X i j) * FloatError.FR (nth i y 0%float) in
+     Rabs (FloatError.FR (D.get FOps rhs j 0) - FloatError.Rsuml (map t (seq 0 n))) <=
+       ((1 + FloatError.u64) ^ n - 1) * (FloatError.Rsumabs (map t (seq 0 n)) + INR n * FloatError.eta64)
+       + INR n * FloatError.eta64) /\
+  (forall j l, (j < ncols X)%nat -> (l < ncols X)%nat -> FloatError.ffin (D.get FOps a j l) ->
+     let t := fun i => FloatError.FR (D.get FOps X i j) * FloatError.FR (D.get FOps X i l) in
+     (j <> l ->
+      Rabs (FloatError.FR (D.get FOps a j l) - FloatError.Rsuml (map t (seq 0 n))) <=
+        ((1 + FloatError.u64) ^ n - 1) * (FloatError.Rsumabs (map t (seq 0 n)) + INR n * FloatError.eta64)
+        + INR n * FloatError.eta64) /\
+     (j = l ->
+      FloatError.ffin alpha /\
+      Rabs (FloatError.FR (D.get FOps a j l) - (FloatError.Rsuml (map t (seq 0 n)) + FloatError.FR alpha)) <=
+        ((1 + FloatError.u64) ^ (n + 1) - 1) *
+          (FloatError.Rsumabs (map t (seq 0 n)) + Rabs (FloatError.FR alpha) + INR n * FloatError.eta64)
+        + INR n * FloatError.eta64)).
+Proof. exact C07.ProofsFloatSys.ridge_fit_raw_system_float_error. Qed.
+
+(* satisfiable: the Cholesky ridge fit at binary64 on rows (0.1, 0.3), (0.2, 0.7), (1, -2),
+   y = (0.3, -0.1, 0.7), alpha = 0.1 returns, and every entry of the system it built is finite *)
+Definition exf_Z : dm PrimFloat.float :=
+  D.mkdm 3 2 [0x1.999999999999ap-4; 0x1.999999999999ap-3; 1; 0x1.3333333333333p-2; 0x1.6666666666666p-1; (-2)]%float.
+Example C07_ridge_system_float_instance :
+  let y := [0x1.3333333333333p-2; (-0x1.999999999999ap-4); 0x1.6666666666666p-1]%float in
+  let alpha := 0x1.999999999999ap-4%float in
+  (exists w b, ridge_fit FOps (cholesky_solve_mut FOps) 0x1p-52%float exf_Z y alpha false = Some (w, b)) /\
+  exists a rhs, ridge_system FOps (ncols exf_Z) exf_Z (col_vec FOps y) alpha = Some (a, rhs) /\
+    (0 < ncols (col_vec FOps y))%nat /\
+    (forall j, (j < ncols exf_Z)%nat -> FloatError.ffin (D.get FOps rhs j 0) /\
+       forall l, (l < ncols exf_Z)%nat -> FloatError.ffin (D.get FOps a j l)).
+Proof.
+  cbv zeta. split; [eexists; eexists; vm_compute; reflexivity|].
+  eexists. eexists. split; [vm_compute; reflexivity|]. split; [vm_compute; lia|].
+  intros j Hj. cbn [exf_Z ncols] in Hj. destruct j as [|[|j]]; [| |lia]; (split; [vm_compute; reflexivity|]);
+    intros l Hl; cbn [exf_Z ncols] in Hl; (destruct l as [|[|l]]; [| |lia]); vm_compute; reflexivity.
 Qed.
